@@ -24,6 +24,7 @@ type GpkgCase struct {
 	PageSize  int    `json:"page_size"`
 	TwoTables bool   `json:"two_tables"`
 	Count2    int    `json:"count2,omitempty"`
+	OddPath   string `json:"odd_path,omitempty"` // source and target live under (and are named with) this string
 }
 
 func (g *GpkgCase) JSON() []byte { b, _ := json.Marshal(g); return b }
@@ -170,9 +171,14 @@ func shrinkInto(g geom.Geometry, box [4]float64) geom.Geometry {
 }
 
 // writeThroughTarget: source file -> GetTableInfo -> TargetGeopackage.WriteFeatures for every table.
-func writeThroughTarget(dir string, tables []TableSpec, page int) (string, error) {
+func writeThroughTarget(dir string, tables []TableSpec, page int, odd string) (string, error) {
 	src := filepath.Join(dir, "src.gpkg")
 	dst := filepath.Join(dir, "dst.gpkg")
+	if odd != "" { // both files in a sub-directory, and with a name, made of characters that are special elsewhere
+		sub := filepath.Join(dir, odd)
+		_ = os.MkdirAll(sub, 0o755)
+		src, dst = filepath.Join(sub, "src "+odd+".gpkg"), filepath.Join(sub, odd+".gpkg")
+	}
 	_ = os.Remove(src)
 	_ = os.Remove(dst)
 	// the source only delivers the schema (Table values have unexported fields): written without rows
@@ -360,7 +366,10 @@ func judgeGpkg(c *fw.Ctx, gc *GpkgCase) {
 	tables := buildGpkgCase(gc)
 	dir := filepath.Join(c.Tmp, "c12")
 	_ = os.MkdirAll(dir, 0o755)
-	dst, err := writeThroughTarget(dir, tables, gc.PageSize)
+	if gc.OddPath != "" {
+		c.Rec.Count("path_with_characters_special_in_uris_globs_formats")
+	}
+	dst, err := writeThroughTarget(dir, tables, gc.PageSize, gc.OddPath)
 	c.Rec.Eval()
 	if err != nil {
 		c.Rec.Violation("write-failed", "", err.Error(), cj, nil)
@@ -441,6 +450,9 @@ func init() {
 				gc.TwoTables = c.Rng.Chance(1, 3)
 				gc.Count2 = c.Rng.Intn(2*min(gc.PageSize, 20) + 2)
 			}
+			if c.Idx%5 == 2 {
+				gc.OddPath = oddNames[int(gc.Seed>>9)%len(oddNames)]
+			}
 			judgeGpkg(c, gc)
 		},
 		Replay: func(c *fw.Ctx, raw json.RawMessage) {
@@ -453,7 +465,7 @@ func init() {
 		},
 		Rule: "TargetGeopackage (Init, CreateTables, Table=..., WriteFeatures on a channel fed by the harness, Close) on schemas obtained through SourceGeopackage.GetTableInfo from generated sources: 1-6 INTEGER/REAL/TEXT attributes with NULLs, POLYGON/MULTIPOLYGON/POINT/LINESTRING incl. empty geometries, geometries away from the origin, 4 reference systems, optionally a second table on the same target; page sizes {1,2,3,7,10} x every count 0..3*page+1 enumerated, plus random (count, page) up to page 1000; the file is read back with a plain sqlite3 connection: row count and order (fids ascending with gaps), attributes, decoded geometry, R-tree ids and boxes (float32 rounded outwards), gpkg_contents extent = bounding box of non-empty geometries (NULL if none), schema, geometry registration, srs row; non-trivial = stream longer than one page",
 		Required: func(string) []string {
-			return []string{"class:empty_stream", "class:exact_multiple_of_page", "class:multiple_plus_one", "class:two_or_more_pages", "two_tables_in_sequence", "empty_geometries", "index_entries_compared", "extents_compared", "srs_rows_compared", "srs_id_differs_from_organization_id", "geometry_type_name_not_upper_case_in_source", "exh:count_x_page_grid", "page_size:1000"}
+			return []string{"class:empty_stream", "class:exact_multiple_of_page", "class:multiple_plus_one", "class:two_or_more_pages", "two_tables_in_sequence", "empty_geometries", "index_entries_compared", "extents_compared", "srs_rows_compared", "srs_id_differs_from_organization_id", "geometry_type_name_not_upper_case_in_source", "path_with_characters_special_in_uris_globs_formats", "exh:count_x_page_grid", "page_size:1000"}
 		},
 		MinNonTriv:  50,
 		Exhaustive:  map[string]string{"exh:count_x_page_grid": "page size in {1,2,3,7,10} x every feature count 0..3*page+1"},
